@@ -395,7 +395,59 @@ def run(tier: str, seed: int) -> int:
             res.spec_failures.append({"job": [job[0]] + list(job[1]), "what": p})
         if len(res.samples) < 5 and job[0] == "rec" and job[1][1] % 17 == 0:
             res.sample({"job": list(job[1]), "mode": o["mode"], "outcome": o.get("impl"), "config_nodes": o.get("nodes")})
+    cli_cases(res, seed)
     return finish(res, st, RULE, NOTE)
+
+
+def cli_cases(res, seed):
+    """the policy through the real command line: a valid configuration signs, and every refusal is an exit status other than 0 with no output file"""
+    rng = random.Random(f"{seed}:c09cli")
+    k = 0
+    while True:
+        desc, files, shape = build_tree(rng, seed, 70000 + k, 2, [0])
+        k += 1
+        if shape:
+            c = suitcases.run_impl_create(desc, files)
+            if "ok" in c:
+                break
+    b = bytes.fromhex(c["ok"])
+    dep = next(iter(shape))
+    kms, script = str(common.REPO / "ncs" / "basic_kms.py"), str(common.REPO / "ncs" / "sign_script.py")
+    base = {"sign-script": script, "kms-script": kms, "context": signing.keys_dir(), "alg": "eddsa", "key-name": "key_ed25519", "key-id": "0x10"}
+    good = dict(base, dependencies={dep: {"key-name": "key_p256", "key-id": "7", "alg": "es-256"}})
+    cases = [("valid", good, b, True),
+             ("a named dependency is absent", dict(base, dependencies={"#nope": {"omit-signing": True}}), b, False),
+             ("a key that does not match the algorithm", dict(base, dependencies={dep: {"key-name": "key_p256", "key-id": "7", "alg": "es-384"}}), b, False),
+             ("signing is required and no key is named", dict(base, dependencies={dep: {"key-id": "7"}}), b, False),
+             ("an unknown algorithm", dict(base, alg="es-255"), b, False)]
+    with tempfile.TemporaryDirectory(prefix="verif_c09cli_") as d:
+        inp = os.path.join(d, "in.suit")
+        open(inp, "wb").write(b)
+        signed = None
+        for i, (what, cfg, data, ok) in enumerate(cases + [("an already signed envelope with the default action", good, None, False)]):
+            if data is None:
+                if signed is None:
+                    continue
+                open(inp, "wb").write(signed)
+            cfgp, out = os.path.join(d, f"cfg{i}.json"), os.path.join(d, f"out{i}.suit")
+            json.dump(cfg, open(cfgp, "w"))
+            rc, log = common.run_cli(["sign", "recursive", "--input-envelope", inp, "--output-envelope", out, "--configuration", cfgp], d)
+            res.case(["cli-sign-recursive", what], nontrivial=True)
+            res.count("cli:sign-recursive")
+            wrote = os.path.exists(out)
+            if ok:
+                if rc != 0 or not wrote:
+                    res.spec_failures.append({"cli": "sign recursive", "case": what, "what": f"a valid configuration was refused on the command line (exit {rc})", "log": log[-300:]})
+                    continue
+                signed = open(out, "rb").read()
+                problems = []
+                check_tree(b, signed, cfg, "eddsa", "", problems)
+                for p_ in problems:
+                    res.spec_failures.append({"cli": "sign recursive", "case": what, "what": p_})
+            elif rc == 0:
+                res.spec_failures.append({"cli": "sign recursive", "case": what, "what": f"{what}: the command line reported success (exit 0)", "output_written": wrote})
+            elif wrote:
+                res.spec_failures.append({"cli": "sign recursive", "case": what, "what": f"{what}: the command failed and still wrote an output envelope"})
 
 
 def _dispatch(job):
